@@ -256,4 +256,22 @@ theorem eval_partial (fx : Fixes) (e : Expr) :
     | divZero => rw [ihc hcc (by rw [hcv]; simp), hcv]
     | undef => rw [hcv] at hd; simp at hd
 
+theorem clean_allFixes (e : Expr) (h : LitsOk e = true) : Clean allFixes e = true := by
+  induction e with
+  | lit l =>
+    simp only [LitsOk] at h
+    cases l with
+    | int b n s => simp [Clean, litClean, allFixes, h]
+    | chr p c => cases p <;> simp [Clean, litClean, allFixes, h]
+  | un op a ih => cases op <;> simp_all [Clean, LitsOk, allFixes]
+  | bin op a b iha ihb =>
+    simp only [LitsOk, Bool.and_eq_true] at h
+    simp only [Clean, iha h.1, ihb h.2]
+    simp [allFixes]
+  | cond c a b ihc iha ihb =>
+    simp only [LitsOk, Bool.and_eq_true] at h
+    simp only [Clean, ihc h.1.1, iha h.1.2, ihb h.2]
+    simp [allFixes]
+
+
 end MirVerif.PP
